@@ -283,3 +283,84 @@ Proof.
       * apply expand_cut_vers; auto.
     + exact (IH Hk' Hp').
 Qed.
+
+(* ---------------------------------------------------------------- C24_full *)
+Definition no_ban (k : bytes) : bool := false.
+
+Lemma backup_of_pass m r since now ks : view_ok m -> no_empty_key m -> splits_ok [] ks = true ->
+  fst (backup_of m r since now ks) = backup_pass since now (fun _ => false) r m.
+Proof.
+  intros Hm Hne Hok. unfold backup_of, backup_pass. cbn [fst].
+  now rewrite (stream_pass_partition [] since now (fun _ => false) (KBackup since) all_keys r m ks Hm Hne Hok).
+Qed.
+
+(* the source versions of k a backup at snapshot r with SinceTs = since is shown *)
+Definition shown_versions (m : src) (k : bytes) (since r : N) : list entry :=
+  filter (key_is k) (shown_items [] since r (fun _ => false) m).
+
+Lemma shown_versions_ok m k since r : view_ok m -> Forall (fun e => 0 < e_ver e) m ->
+  Forall (fun e => key_is k e = true) (shown_versions m k since r)
+  /\ StronglySorted desc (shown_versions m k since r)
+  /\ Forall (fun e => 0 < e_ver e) (shown_versions m k since r)
+  /\ Forall (fun e => e_ver e <= r) (shown_versions m k since r).
+Proof.
+  intros Hm Hp. unfold shown_versions. repeat split.
+  - apply filter_key_is_all.
+  - apply (desc_of_sorted k); [|apply filter_key_is_all]. apply sorted_filter, sorted_filter. exact Hm.
+  - rewrite Forall_forall in *. intros e He. apply filter_In in He. destruct He as (He & _).
+    apply filter_In in He. apply Hp. tauto.
+  - apply Forall_forall. intros e He. apply filter_In in He. destruct He as (He & _).
+    apply filter_In in He. destruct He as (_ & He). apply shown_vers in He. tauto.
+Qed.
+
+Theorem backup_full m r since nowb now ks k ts :
+  view_ok m -> no_empty_key m -> Forall (fun e => 0 < e_ver e) m -> splits_ok [] ks = true ->
+  nowb <= now ->
+  vis (fst (backup_of m r since nowb ks)) k ts now
+  = vis (cut (marker nowb) (shown_versions m k since r)) k ts now.
+Proof.
+  intros Hm Hne Hp Hok Hle. rewrite (backup_of_pass m r since nowb ks Hm Hne Hok).
+  rewrite vis_filter. rewrite (backup_per_key since nowb (fun _ => false) r m Hm Hne k).
+  fold (shown_versions m k since r).
+  destruct (shown_versions_ok m k since r Hm Hp) as (H1 & H2 & H3 & _).
+  now apply vis_expand_cut.
+Qed.
+
+(* ---- the visible state at and above the snapshot ---- *)
+Lemma spec_latest_restrict ws k ts : forall best,
+  spec_latest ws k ts best = spec_latest (filter (fun e => key_is k e && (e_ver e <=? ts)) ws) k ts best.
+Proof.
+  induction ws as [|w r IH]; intros best; [reflexivity|].
+  cbn [spec_latest filter]. unfold key_is at 1.
+  destruct (bytes_eqb (e_key w) k && (e_ver w <=? ts)) eqn:E.
+  - cbn [spec_latest]. rewrite E. apply IH.
+  - apply IH.
+Qed.
+
+Lemma vis_cut_head (p : entry -> bool) k r ts now vs :
+  Forall (fun e => key_is k e = true) vs -> StronglySorted desc vs ->
+  Forall (fun e => e_ver e <= r) vs -> r <= ts ->
+  vis (cut p vs) k ts now = vis vs k r now.
+Proof.
+  intros Hk Hs Hr Hle. destruct Hs as [|e vs Hs Hx]; [reflexivity|].
+  inversion Hk as [|? ? Hke _]; subst. inversion Hr as [|? ? Hre _]; subst. unfold key_is in Hke.
+  assert (E1: (e_ver e <=? ts) = true) by (apply N.leb_le; lia).
+  assert (E2: (e_ver e <=? r) = true) by (apply N.leb_le; lia).
+  unfold vis. cbn [cut]. destruct (p e); cbn [spec_latest]; rewrite Hke, ?E1, ?E2; cbn [andb];
+    rewrite ?spec_latest_stays; auto. apply cut_vers. exact Hx.
+Qed.
+
+Theorem backup_full_visible m r nowb now ks k ts :
+  view_ok m -> no_empty_key m -> Forall (fun e => 0 < e_ver e) m -> splits_ok [] ks = true ->
+  nowb <= now -> r <= ts -> is_prefix c_badgerPrefix k = false ->
+  vis (fst (backup_of m r 0 nowb ks)) k ts now = vis m k r now.
+Proof.
+  intros Hm Hne Hp Hok Hle Hts Hint. rewrite (backup_full m r 0 nowb now ks k ts Hm Hne Hp Hok Hle).
+  destruct (shown_versions_ok m k 0 r Hm Hp) as (H1 & H2 & _ & H4).
+  rewrite (vis_cut_head _ k r ts now _ H1 H2 H4 Hts).
+  unfold vis at 2. rewrite spec_latest_restrict. fold (vis (filter (fun e => key_is k e && (e_ver e <=? r)) m) k r now).
+  f_equal. unfold shown_versions, shown_items. rewrite filter_filter. apply filter_ext_in'. intros e _.
+  destruct (key_is k e) eqn:Ek; [|now rewrite andb_false_r].
+  apply key_is_true in Ek. unfold shown, skip_common, is_internal. rewrite Ek, Hint. cbn.
+  rewrite !orb_false_r, andb_true_r. now rewrite N.leb_antisym.
+Qed.
